@@ -1,4 +1,5 @@
 import MpfVerif.Model.Show
+import MpfVerif.Model.ShowToken
 /-!
 # A show-player key with its running-show instances (C17) — replacement in sync
 
@@ -21,6 +22,11 @@ open MpfVerif.Show
 structure Inst where
   rs : RS
   replaces : Option Nat := none      -- pending `start_callback`: the stop of instance `id`
+  /-- what `replace_or_advance_show` compares besides the fields that live in `rs` (speed, manual_advance — both can be
+  changed by an `update` request): `(config id, loops, sync_ms)` of the `ShowConfig` the instance was created with; the
+  config id stands for show name, priority, show tokens and the events_when_looped/…/completed lists.  `none`: the play
+  entry has `events_when_played` / `events_when_stopped` (or `block_queue`): such a play always replaces. -/
+  cfg : Option (Nat × Option Nat × Nat) := none
   deriving DecidableEq, Repr
 
 abbrev TObs := Nat × Obs
@@ -38,16 +44,16 @@ def stopFrom : List Inst → List Inst × List TObs
       let r := Show.stop x.rs
       if x.replaces.isSome then
         let p := stopFrom rest
-        ({ rs := r.1, replaces := none } :: p.1, p.2 ++ tag rest.length r.2)
-      else ({ rs := r.1, replaces := none } :: rest, tag rest.length r.2)
+        ({ x with rs := r.1, replaces := none } :: p.1, p.2 ++ tag rest.length r.2)
+      else ({ x with rs := r.1, replaces := none } :: rest, tag rest.length r.2)
 
 /-- after the instance `x` (above `rest`) made the step `r`: a still-pending start callback runs when the instance has
 started (`_start_now`) or is stopped (`stop`) — in both cases *before* the instance's own effects -/
 def settle (x : Inst) (rest : List Inst) (r : RS × List Obs) : List Inst × List TObs :=
   if x.replaces.isSome && (r.1.started || r.1.stopped) then
     let p := stopFrom rest
-    ({ rs := r.1, replaces := none } :: p.1, p.2 ++ tag rest.length r.2)
-  else ({ rs := r.1, replaces := x.replaces } :: rest, tag rest.length r.2)
+    ({ x with rs := r.1, replaces := none } :: p.1, p.2 ++ tag rest.length r.2)
+  else ({ x with rs := r.1 } :: rest, tag rest.length r.2)
 
 /-- a request / timer callback `op` for the instance with id `i` -/
 def stepAt (i : Nat) (op : Show.Op) : List Inst → List Inst × List TObs
@@ -62,6 +68,10 @@ inductive KOp
   | play (durs : List Nat) (num den : Nat) (loops : Option Nat) (start : Int) (running manual : Bool) (sync : Nat) (t : Nat)
   | req (op : Show.Op)            -- stop / pause / resume / advance / back / speed for the key (never `play` / `fire`)
   | fire (i t : Nat)              -- the timer of instance `i` runs at clock time `t`
+  /-- a play whose entry has no `events_when_played` / `events_when_stopped` / `block_queue`: `replace_or_advance_show`
+  compares the new `ShowConfig` (`cid`: config id, see `Inst.cfg`) with the instance in the dict and may keep or advance it -/
+  | playc (cid : Nat) (durs : List Nat) (num den : Nat) (loops : Option Nat) (start : Int) (running manual : Bool)
+      (sync : Nat) (t : Nat)
   deriving Repr
 
 structure KS where
@@ -80,30 +90,71 @@ def opTime : Show.Op → Nat
   | .stop t => t | .pause t => t | .resume t => t | .advance t => t | .back t => t
   | .speed _ _ t => t | .fire t => t
 
+/-! ### `ShowController.replace_or_advance_show`: keep / advance / replace -/
+
+inductive Dec
+  | keep | advance | replace
+  deriving DecidableEq, Repr
+
+/-- `RunningShow.current_step_index`: `None` until the first step ran (a show that still waits for its synchronised
+start), afterwards the index of the step played last, i.e. `next_step_index - 1` -/
+def curIdx (s : RS) : Option Int := if s.pending then none else some (s.nextIdx - 1)
+
+/-- `old_instance.show_config == config` (a namedtuple comparison; speed and manual_advance follow `update` requests) -/
+def sameCfg (x : Inst) (cid num den : Nat) (loops : Option Nat) (manual : Bool) (sync : Nat) : Bool :=
+  x.cfg == some (cid, loops, sync) && x.rs.spNum == num && x.rs.spDen == den && x.rs.manual == manual
+
+/-- the decision of `replace_or_advance_show` for a play entry without events_when_played/stopped and block_queue
+(`start_step` is never `None` from the show player: `template_int`, default 1): an instance that does not run, or runs
+another config, is replaced; one that is *at* the requested start step (`current_step_index + 1 == start_step`,
+`start_step` is 1-based) is kept; one that is one step before it is advanced; everything else is replaced — in
+particular an instance whose `current_step_index` is still `None` -/
+def decision (x : Inst) (cid num den : Nat) (loops : Option Nat) (manual : Bool) (sync : Nat) (start : Int) : Dec :=
+  if x.rs.stopped then .replace
+  else if !sameCfg x cid num den loops manual sync then .replace
+  else match curIdx x.rs with
+    | none => .replace
+    | some c => if c + 1 = start then .keep else if c + 2 = start then .advance else .replace
+
+/-- a new `RunningShow` is created; an old one that still runs is stopped at once or - with `sync_ms` - in sync -/
+def playNew (c : Option (Nat × Option Nat × Nat)) (s : KS) (durs : List Nat) (num den : Nat) (loops : Option Nat)
+    (start : Int) (running manual : Bool) (sync : Nat) (t : Nat) : KS × List TObs :=
+  -- the new `RunningShow` (created after the old one was dealt with)
+  let fresh := Show.step {} (.play durs num den loops start running manual sync t)
+  let n := s.insts.length
+  match s.insts with
+  | [] => ({ insts := [{ rs := fresh.1, cfg := c }], now := max s.now t }, tag n fresh.2)
+  | x :: rest =>
+    if x.rs.stopped then
+      ({ insts := { rs := fresh.1, cfg := c } :: x :: rest, now := max s.now t }, tag n fresh.2)
+    else if sync ≠ 0 then
+      -- stop the current show in sync with the new show: `start_callback = old_instance.stop`
+      ({ insts := { rs := fresh.1, replaces := some rest.length, cfg := c } :: x :: rest, now := max s.now t }, tag n fresh.2)
+    else
+      let p := stopFrom (x :: rest)
+      ({ insts := { rs := fresh.1, cfg := c } :: p.1, now := max s.now t }, p.2 ++ tag n fresh.2)
+
+/-- a request for the key -/
+def reqStep (s : KS) (op : Show.Op) : KS × List TObs :=
+  if isReq op then
+    let p := stepAt (s.insts.length - 1) op s.insts
+    ({ insts := p.1, now := max s.now (opTime op) }, p.2)
+  else (s, [])
+
 def step (s : KS) : KOp → KS × List TObs
-  | .play durs num den loops start running manual sync t =>
-    -- the new `RunningShow` (created after the old one was dealt with)
-    let fresh := Show.step {} (.play durs num den loops start running manual sync t)
-    let n := s.insts.length
-    match s.insts with
-    | [] => ({ insts := [{ rs := fresh.1 }], now := max s.now t }, tag n fresh.2)
-    | x :: rest =>
-      if x.rs.stopped then
-        ({ insts := { rs := fresh.1 } :: x :: rest, now := max s.now t }, tag n fresh.2)
-      else if sync ≠ 0 then
-        -- stop the current show in sync with the new show: `start_callback = old_instance.stop`
-        ({ insts := { rs := fresh.1, replaces := some rest.length } :: x :: rest, now := max s.now t }, tag n fresh.2)
-      else
-        let p := stopFrom (x :: rest)
-        ({ insts := { rs := fresh.1 } :: p.1, now := max s.now t }, p.2 ++ tag n fresh.2)
-  | .req op =>
-    if isReq op then
-      let p := stepAt (s.insts.length - 1) op s.insts
-      ({ insts := p.1, now := max s.now (opTime op) }, p.2)
-    else (s, [])
+  | .play durs num den loops start running manual sync t => playNew none s durs num den loops start running manual sync t
+  | .req op => reqStep s op
   | .fire i t =>
     let p := stepAt i (.fire t) s.insts
     ({ insts := p.1, now := max s.now t }, p.2)
+  | .playc cid durs num den loops start running manual sync t =>
+    match s.insts with
+    | [] => playNew (some (cid, loops, sync)) s durs num den loops start running manual sync t
+    | x :: _ =>
+      match decision x cid num den loops manual sync start with
+      | .keep => ({ s with now := max s.now t }, [])                -- `return old_instance`
+      | .advance => reqStep s (.advance t)                           -- `old_instance.advance(); return old_instance`
+      | .replace => playNew (some (cid, loops, sync)) s durs num den loops start running manual sync t
 
 def run (s : KS) : List KOp → KS × List TObs
   | [] => (s, [])
@@ -140,6 +191,23 @@ def driverStep (s : KS) (line : String) : KS × String :=
         else answer (step s (.play durs num den lp start (running == 1) (manual == 1) sync t))
       | _, _, _, _ => (s, "bad-op")
     | _ => (s, "bad-op")
+  | "playc" :: rest =>
+    -- playc <cid> <num> <den> <loops|inf> <start (Int)> <running 0/1> <manual 0/1> <sync> <t> <d1> ... <dn>
+    -- answers like `play`, followed by ` |keep`, ` |advance` or ` |replace` (` |new` over an empty key)
+    match rest with
+    | cid :: num :: den :: loops :: start :: running :: manual :: sync :: t :: ds =>
+      match allNat [cid, num, den, running, manual, sync, t], allNat ds,
+            (if loops = "inf" then some none else loops.toNat?.map some), start.toInt? with
+      | some [cid, num, den, running, manual, sync, t], some durs, some lp, some start =>
+        if num = 0 ∨ durs.isEmpty ∨ t < s.now ∨ !exactFor durs num den then (s, "bad-op")
+        else
+          let r := answer (step s (.playc cid durs num den lp start (running == 1) (manual == 1) sync t))
+          (r.1, r.2 ++ " |" ++ (match s.insts with
+            | [] => "new"
+            | x :: _ => match decision x cid num den lp (manual == 1) sync start with
+              | .keep => "keep" | .advance => "advance" | .replace => "replace"))
+      | _, _, _, _ => (s, "bad-op")
+    | _ => (s, "bad-op")
   | [op, t] =>
     match t.toNat? with
     | none => (s, "bad-op")
@@ -172,6 +240,7 @@ def driverStep (s : KS) (line : String) : KS × String :=
         | [] => answer (step s (.req (.speed num den t)))
     | _ => (s, "bad-op")
   | ["reset"] => ({}, "ok")
+  | "tok" :: rest => (s, ShowToken.tokLine rest)      -- token substitution (stateless): `Model/ShowToken.lean`
   | _ => (s, "bad-op")
 
 def init : KS := {}
